@@ -1,5 +1,6 @@
 (** Property C14 — unification is sound and computes most general unifiers.
-    Only the property theorems; models and proofs are in Infer/{Table,Unify,Sound,Complete}.v.
+    Only the property theorems; models and proofs are in
+    Infer/{Table,Unify,Sound,Complete,Complete2,Complete3,Complete4,Complete5,Exact}.v.
 
     Soundness, on the property's fragment ([pfrag]: ADTs with their arities, tuples, slices,
     references, raw pointers, scalars, integer / float / general unknowns, placeholders;
@@ -28,11 +29,17 @@
     in the term model): every ground solution of the resulting table solves the initial table and
     unifies the two types — so the result represents EXACTLY the set of ground unifiers (the
     semantic content of "most general"), and ([relate_nosol_no_unifier]) a failing [relate] means
-    that no ground unifier exists.  Integer / float kinds: only the three leaf cases
-    ([relate_complete_numeric_scalar], [_numeric_var_var], [_general_numeric]) are proved, each in
-    isolation.  Open: integer / float unknowns inside the two-sided induction, lifetimes (goals),
-    raw pointers on two-sided problems, non-ground unifiers. *)
-From Chalk Require Import Ir.Syntax Infer.Table Infer.Unify Infer.Sound Infer.Complete Infer.Complete2 Infer.Complete3 Infer.Exact.
+    that no ground unifier exists.  [relate_sound_unifier] is soundness read on ground solutions
+    (raw pointers allowed).
+    Integer / float kinds: [relate_complete_matching_numeric] (one-sided matching with integer /
+    float unknowns anywhere in the pattern), [relate_complete_two_sided_numeric] (unknowns on both
+    sides, all of them integer / float) and the three var leaf cases
+    ([relate_complete_numeric_scalar], [_numeric_var_var], [_general_numeric], each in isolation).
+    OPEN: general and integer / float unknowns MEETING in one two-sided problem (the state
+    "general unknown bound to an integer unknown"); lifetimes (goals) in the completeness
+    theorems; raw pointers on two-sided problems (generalisation creates a fresh unknown);
+    non-ground unifiers (only the set of ground unifiers is characterised). *)
+From Chalk Require Import Ir.Syntax Infer.Table Infer.Unify Infer.Sound Infer.Complete Infer.Complete2 Infer.Complete3 Infer.Complete4 Infer.Complete5 Infer.Exact.
 
 Theorem relate_sound : forall ar adt_var fn_var fuel a b t gs t' K U,
   inv ar K U t -> okt ar K t a -> okt ar K t b ->
@@ -132,6 +139,19 @@ Check relate_complete_two_sided : forall adt_var fn_var θ fuel a b t,
   exists t', relate adt_var fn_var fuel Invariant a b t = (Done [], t')
              /\ solves θ t' /\ traw t' /\ nvars t' = nvars t /\ pext t t'.
 
+(** Soundness read on ground solutions (lifetime-free patterns with general unknowns, raw
+    pointers allowed): every ground universe-respecting solution of the resulting table is a
+    solution of the initial table and makes the two types equal. *)
+Theorem relate_sound_unifier : forall ar θ adt_var fn_var fuel a b t t' K U,
+  inv ar K U t -> okt ar K t a -> okt ar K t b -> pattern a = true -> pattern b = true ->
+  relate adt_var fn_var fuel Invariant a b t = (Done [], t') ->
+  solves θ t' -> solves θ t /\ app_subst θ a = app_subst θ b.
+Proof. exact relate_sound_unifier_lemma. Qed.
+Check relate_sound_unifier : forall ar θ adt_var fn_var fuel a b t t' K U,
+  inv ar K U t -> okt ar K t a -> okt ar K t b -> pattern a = true -> pattern b = true ->
+  relate adt_var fn_var fuel Invariant a b t = (Done [], t') ->
+  solves θ t' -> solves θ t /\ app_subst θ a = app_subst θ b.
+
 (** Exactness (lifetime-free types, general unknowns, no raw pointers): after a successful
     [relate] without residual goals, the ground universe-respecting solutions of the resulting
     table are exactly the solutions of the initial table that unify [a] and [b]. *)
@@ -140,27 +160,57 @@ Theorem relate_unifiers_exact : forall ar adt_var fn_var fuel a b t t' K U,
   pattern a = true -> pattern b = true -> noraw a = true -> noraw b = true -> traw t ->
   relate adt_var fn_var fuel Invariant a b t = (Done [], t') ->
   forall θ, (solves θ t' -> solves θ t /\ app_subst θ a = app_subst θ b)
-         /\ (solves θ t -> app_subst θ a = app_subst θ b -> (2 * depth (app_subst θ a) < fuel)%nat -> solves θ t').
+         /\ (solves θ t -> app_subst θ a = app_subst θ b -> (2 * Closed.depth (app_subst θ a) < fuel)%nat -> solves θ t').
 Proof. exact relate_unifiers_exact_lemma. Qed.
 Check relate_unifiers_exact : forall ar adt_var fn_var fuel a b t t' K U,
   inv ar K U t -> okt ar K t a -> okt ar K t b ->
   pattern a = true -> pattern b = true -> noraw a = true -> noraw b = true -> traw t ->
   relate adt_var fn_var fuel Invariant a b t = (Done [], t') ->
   forall θ, (solves θ t' -> solves θ t /\ app_subst θ a = app_subst θ b)
-         /\ (solves θ t -> app_subst θ a = app_subst θ b -> (2 * depth (app_subst θ a) < fuel)%nat -> solves θ t').
+         /\ (solves θ t -> app_subst θ a = app_subst θ b -> (2 * Closed.depth (app_subst θ a) < fuel)%nat -> solves θ t').
 
 (** If [relate] answers [NoSolution], no ground solution of the table unifies the two types. *)
 Theorem relate_nosol_no_unifier : forall adt_var fn_var fuel a b t t' θ,
   pattern a = true -> pattern b = true -> noraw a = true -> noraw b = true ->
   (forall v, In v (pvars a) -> v < nvars t) -> (forall v, In v (pvars b) -> v < nvars t) -> traw t ->
   relate adt_var fn_var fuel Invariant a b t = (NoSol, t') ->
-  solves θ t -> (2 * depth (app_subst θ a) < fuel)%nat -> app_subst θ a <> app_subst θ b.
+  solves θ t -> (2 * Closed.depth (app_subst θ a) < fuel)%nat -> app_subst θ a <> app_subst θ b.
 Proof. exact relate_nosol_no_unifier_lemma. Qed.
 Check relate_nosol_no_unifier : forall adt_var fn_var fuel a b t t' θ,
   pattern a = true -> pattern b = true -> noraw a = true -> noraw b = true ->
   (forall v, In v (pvars a) -> v < nvars t) -> (forall v, In v (pvars b) -> v < nvars t) -> traw t ->
   relate adt_var fn_var fuel Invariant a b t = (NoSol, t') ->
-  solves θ t -> (2 * depth (app_subst θ a) < fuel)%nat -> app_subst θ a <> app_subst θ b.
+  solves θ t -> (2 * Closed.depth (app_subst θ a) < fuel)%nat -> app_subst θ a <> app_subst θ b.
+
+(** Matching with unknowns of ANY kind in the pattern ([npattern]; [kinds_ok]: [θ] maps integer /
+    float unknowns to integer / float scalar types): as [relate_complete_matching]. *)
+Theorem relate_complete_matching_numeric : forall adt_var fn_var θ fuel a t,
+  npattern a = true -> kinds_ok θ a = true -> (Closed.depth (napp θ a) < fuel)%nat -> solves θ t ->
+  (forall v, In v (nvars_of a) -> v < nvars t) ->
+  exists t', relate adt_var fn_var fuel Invariant a (napp θ a) t = (Done [], t')
+             /\ solves θ t' /\ nvars t' = nvars t /\ pext t t'.
+Proof. exact relate_complete_matching_numeric_lemma. Qed.
+Check relate_complete_matching_numeric : forall adt_var fn_var θ fuel a t,
+  npattern a = true -> kinds_ok θ a = true -> (Closed.depth (napp θ a) < fuel)%nat -> solves θ t ->
+  (forall v, In v (nvars_of a) -> v < nvars t) ->
+  exists t', relate adt_var fn_var fuel Invariant a (napp θ a) t = (Done [], t')
+             /\ solves θ t' /\ nvars t' = nvars t /\ pext t t'.
+
+(** Unknowns on BOTH sides, all integer / float ([numpat]; no general unknown; [tnum]: bound
+    values of the table are ground): unions of numeric unknowns and bindings to scalars. *)
+Theorem relate_complete_two_sided_numeric : forall adt_var fn_var θ fuel a b t,
+  numpat a = true -> numpat b = true -> kinds_ok θ a = true -> kinds_ok θ b = true ->
+  (forall v, In v (nvars_of a) -> v < nvars t) -> (forall v, In v (nvars_of b) -> v < nvars t) ->
+  napp θ a = napp θ b -> (Closed.depth (napp θ a) < fuel)%nat -> solves θ t -> tnum t ->
+  exists t', relate adt_var fn_var fuel Invariant a b t = (Done [], t')
+             /\ solves θ t' /\ tnum t' /\ nvars t' = nvars t /\ pext t t'.
+Proof. exact relate_complete_two_sided_numeric_lemma. Qed.
+Check relate_complete_two_sided_numeric : forall adt_var fn_var θ fuel a b t,
+  numpat a = true -> numpat b = true -> kinds_ok θ a = true -> kinds_ok θ b = true ->
+  (forall v, In v (nvars_of a) -> v < nvars t) -> (forall v, In v (nvars_of b) -> v < nvars t) ->
+  napp θ a = napp θ b -> (Closed.depth (napp θ a) < fuel)%nat -> solves θ t -> tnum t ->
+  exists t', relate adt_var fn_var fuel Invariant a b t = (Done [], t')
+             /\ solves θ t' /\ tnum t' /\ nvars t' = nvars t /\ pext t t'.
 
 (** An unbound integer (float) unknown related with an integer (float) scalar is bound to it. *)
 Theorem relate_complete_numeric_scalar : forall adt_var fn_var f v k s t c u vr,
